@@ -1,5 +1,6 @@
 """C11 - matrix and Euler conversions are exact inverses of matrix() / each other."""
 import math
+import warnings
 import numpy as np
 import torch
 import pypose as pp
@@ -15,14 +16,30 @@ RULE = ("roundtrip: group elements from the C02 generators (angles 0, pi, pi+-{1
         "X.matrix() -> mat2SO3/mat2SE3/mat2Sim3/mat2RxSO3/from_matrix on every accepted layout (3x3, 3x4, 4x4; sliced or padded) "
         "with check=True and check=False: the result's reference matrix equals the input (32 eps s), unit quaternion (8 eps), same "
         "scale (32 eps rel), correct ltype/shape, and never raises. The extraction branch (recomputed by the harness from the "
-        "diagonal) is recorded; all four are populated.  euler: euler2SO3(r,p,y) == Rz(y)Ry(p)Rx(r) (own matrices), "
-        "euler2SO3(X.euler()) is the same rotation as X when |sin pitch| < 1-2e-4 (tolerance 64 eps / cos pitch), angles in "
-        "[-pi,pi]x[-pi/2,pi/2]x[-pi,pi].  reject: valid matrices perturbed by a traceless symmetric shear / reflection / rank loss "
-        "with defect >= 10x the stated atol+rtol tolerance must raise ValueError with check=True; defect <= 0.1x must not.  "
-        "Non-trivial: angle within 1e-3 of pi, non-default extraction branch, scale outside [0.1,10], or a rejection case; "
-        "distinct = (converter, ltype, dtype, layout, branch, regimes).")
+        "diagonal) is recorded; all four are populated.  euler: batches (lshape rank 0..2) of angle triples - principal ranges, ANY "
+        "real angles (several turns, both signs, k pi/2 +- {0,1e-9,1e-4,0.03}) and pitches with 1-|sin pitch| = k eps_arg, "
+        "k in {0,.25,.5,.9,1.3,2,4,16} - through euler2SO3 == Rz(y)Ry(p)Rx(r) (own matrices, 32 eps; unit quaternion 8 eps; shape), "
+        "1 batch in 8 as a transposed (non-contiguous) tensor; then X.euler(eps) / pp.euler(X, eps) (identical, shape lshape+(3,)) "
+        "on these SO3 results and on batched SO3/SE3/RxSO3/Sim3 elements (quaternion from the regime generator or aimed at the "
+        "gimbal threshold, random translation / scale), eps_arg in {default, 2e-4, 1e-2, 1e-3, 0.05, 1e-5, 1e-6}: "
+        "euler2SO3(X.euler()) is the same rotation as X when |sin pitch| < 1 - max(1.1 eps_arg, eps_arg + 16 eps) "
+        "(tolerance 64 eps / cos pitch), angles in [-pi,pi]x[-pi/2,pi/2]x[-pi,pi] - hence the principal representative of "
+        "non-principal input angles; inside the band only finiteness (the statement excludes it; pypose returns roll = 0 and a "
+        "yaw in [-2pi,2pi] that reproduces X only to O(cos pitch): counted as gimbal / gimbal:angle_outside_principal).  "
+        "reject: valid matrices perturbed by a traceless symmetric shear / isotropic scale c (SO3, SE3) / reflection / rank loss "
+        "with defect >= 10x the stated atol+rtol tolerance, or holding a NaN / +-inf entry in the 3x3 block, must raise ValueError "
+        "with check=True, alone or at any position of a batch of 2..4 otherwise valid matrices; defect <= 0.1x must not; c R is a "
+        "VALID RxSO3 / Sim3 matrix and must be accepted with scale c s (round-trip tolerances + input rounding). A 4x4 input with "
+        "a valid rotation block and a wrong last row is documented to warn only (statement silent): ValueError or an element "
+        "that ignores the row are both accepted, an element that depends on it is not.  "
+        "Non-trivial: angle within 1e-3 of pi, non-default extraction branch, scale outside [0.1,10], pitch within 0.05 of a pole, "
+        "angles outside the principal ranges, or a rejection case; "
+        "distinct = (converter, ltype, dtype, layout, branch, regimes, eps_arg, batch position).")
 ASSUMPTIONS = ["inputs to the converters are produced by matrix() of a valid element in the same dtype (or a stated perturbation of it)",
-               "default rtol = atol = 1e-5; the band between 0.1x and 10x of the tolerance is unconstrained"]
+               "default rtol = atol = 1e-5; the band between 0.1x and 10x of the tolerance is unconstrained",
+               "euler: X ranges over the four group types of the statement (the Lie-algebra types that euler() also documents are "
+               "outside it); eps_arg is a small positive threshold (1e-6 .. 0.05)",
+               "euler2SO3 on a non-contiguous angle tensor raised RuntimeError (view): found here, repaired in /repo (known_findings F24), asserted"]
 
 CONV = {"SO3": pp.mat2SO3, "SE3": pp.mat2SE3, "Sim3": pp.mat2Sim3, "RxSO3": pp.mat2RxSO3}
 
@@ -134,74 +151,218 @@ def _Ry(a): c, s = math.cos(a), math.sin(a); return np.array([[c, 0, s], [0, 1, 
 def _Rz(a): c, s = math.cos(a), math.sin(a); return np.array([[c, -s, 0], [s, c, 0], [0, 0, 1]])
 
 
+# pypose defects this module found (none is open any more; the routing is kept): while a key is listed the failing call is counted (label "open:<key>") instead of
+# reported, and the case continues on the nearest supported input.  Remove a key to assert it like everything else.
+#   euler2SO3_noncontiguous: euler2SO3 does euler.view(-1, 3), which raises RuntimeError for a batched angle tensor whose memory
+#     layout is not view-compatible (e.g. torch.randn(3, 2, 3).transpose(0, 1)); reproduction in the docstring of Euler.
+KNOWN_OPEN = set()      # euler2SO3_noncontiguous: known_findings F24, repaired in /repo (1a6d029) - asserted
+
+EULER_EPS = (None, None, None, 2e-4, 1e-2, 1e-3, 0.05, 1e-5, 1e-6)     # None: the default (2e-4) is not passed
+BAND_K = (0.0, 0.25, 0.5, 0.9, 1.3, 2.0, 4.0, 16.0)                     # 1 - |sin pitch| = k * eps  (k < 1: inside the gimbal band)
+TWO_PI = 2 * math.pi
+
+
+def _quat_of_rpy(r, p, y):
+    """quaternion [x y z w] of Rz(y) Ry(p) Rx(r), composed from the three axis rotations with the harness's own product"""
+    qx = np.array([math.sin(r / 2), 0.0, 0.0, math.cos(r / 2)])
+    qy = np.array([0.0, math.sin(p / 2), 0.0, math.cos(p / 2)])
+    qz = np.array([0.0, 0.0, math.sin(y / 2), math.cos(y / 2)])
+    return R.qmul(qz, R.qmul(qy, qx))
+
+
 class Euler(Sub):
+    """euler2SO3 on batched angle tensors (any real angles) and X.euler(eps) / pp.euler(X, eps) on batched SO3/SE3/RxSO3/Sim3.
+
+    OPEN euler2SO3_noncontiguous, standalone reproduction:
+        import torch, pypose as pp
+        a = torch.randn(3, 2, 3, dtype=torch.float64).transpose(0, 1)      # a (2, 3) batch of angle triples, not contiguous
+        pp.euler2SO3(a.contiguous())                                       # fine
+        pp.euler2SO3(a)                 # RuntimeError: view size is not compatible with input tensor's size and stride ...
+    """
     name = "euler"
     n = {"quick": 12000, "thorough": 300000}
+
+    def valid(self, case):
+        if case["kind"] == "group":
+            return gen.valid_groups(case["ltype"], case["items"], case["dtype"])
+        return all(math.isfinite(v) for it in case["items"] for v in it)
 
     def strategy(self, tier):
         ang = st.one_of(st.floats(-math.pi, math.pi), st.sampled_from((0.0, math.pi, -math.pi, math.pi / 2, -math.pi / 2, 1e-9, -1e-9)))
         pit = st.one_of(st.floats(-math.pi / 2, math.pi / 2),
                         st.sampled_from((0.0, 1.5, -1.5, math.pi / 2 - 0.03, -(math.pi / 2 - 0.03), math.pi / 2, -math.pi / 2, math.pi / 2 - 1e-3)))
+        # any real angle is a valid argument of euler2SO3: several turns, both signs, multiples of pi/2 and their neighbourhood
+        wide = st.one_of(st.floats(-4 * math.pi, 4 * math.pi), st.floats(-30.0, 30.0),
+                         st.builds(lambda k, d, sg: k * math.pi / 2 + sg * d, st.integers(-8, 8),
+                                   st.sampled_from((0.0, 1e-9, 1e-4, 0.03)), st.sampled_from((1.0, -1.0))))
+
+        @st.composite
+        def band_pitch(draw, eps):
+            """pitch with 1 - |sin pitch| = k * eps around the gimbal threshold of this eps, on either pole, any turn"""
+            k = draw(st.sampled_from(BAND_K))
+            d = math.acos(max(-1.0, 1.0 - k * (2e-4 if eps is None else eps)))
+            return draw(st.sampled_from((1.0, -1.0))) * (math.pi / 2 - d) + TWO_PI * draw(st.sampled_from((0, 0, 0, 1, -1))), k
+
+        @st.composite
+        def rpy(draw, eps):
+            cls = draw(st.sampled_from(("principal", "principal", "wide", "wide", "band")))
+            if cls == "principal":
+                return [draw(ang), draw(pit), draw(ang)], cls
+            if cls == "wide":
+                return [draw(wide), draw(wide), draw(wide)], cls
+            p, k = draw(band_pitch(eps))
+            return [draw(ang), p, draw(ang)], "band:k=%g" % k
 
         @st.composite
         def s(draw):
             dtype = draw(st.sampled_from(gen.DTYPES))
-            kind = draw(st.sampled_from(("angles", "angles", "quat")))
+            kind = draw(st.sampled_from(("angles", "angles", "group", "group", "group")))
+            eps = draw(st.sampled_from(EULER_EPS))
+            shape = draw(gen.lshape(max_rank=2, extents=(1, 2, 3), max_items=3))
+            n = int(np.prod(shape)) if shape else 1
+            case = {"dtype": dtype, "kind": kind, "lshape": shape, "eps": eps}
             if kind == "angles":
-                return {"dtype": dtype, "kind": kind, "rpy": gen.rnd_list([draw(ang), draw(pit), draw(ang)], dtype)}
-            q, reg = draw(gen.unit_quat(dtype))
-            return {"dtype": dtype, "kind": kind, "q": q, "reg": reg}
+                layout = draw(st.sampled_from(("contiguous",) * 7 + ("transposed",)))
+                if layout == "transposed":          # needs two batch axes longer than one to be a different memory layout
+                    case["lshape"] = shape = [draw(st.sampled_from((2, 3))), 2]
+                    n = shape[0] * 2
+                its = [draw(rpy(eps)) for _ in range(n)]
+                case.update(items=[gen.rnd_list(a, dtype) for a, _ in its], regs=[c for _, c in its], layout=layout)
+                return case
+            lt = draw(st.sampled_from(R.GROUPS))
+            # euler() reads the rotation part only: translations (|t| <= 1e3) and scales (1e-3..1e3) are expanded from one drawn
+            # integer, the quaternion comes from the regime-directed generator or is aimed at the gimbal threshold
+            rs = np.random.RandomState(draw(st.integers(0, 2 ** 31 - 1)))
+            items, regs = [], []
+            for _ in range(n):
+                if draw(st.sampled_from((False, False, True))):
+                    # (the generic quaternion kinds hardly ever come near the threshold)
+                    p, k = draw(band_pitch(eps))
+                    q = _quat_of_rpy(draw(ang), p, draw(ang))
+                    q, reg = draw(st.sampled_from((1.0, -1.0))) * q / np.linalg.norm(q), "band:k=%g" % k
+                else:
+                    q, reg = draw(gen.unit_quat(dtype))
+                t = rs.uniform(-1, 1, 3) * 10.0 ** rs.uniform(-3, 3)
+                sc = 10.0 ** rs.uniform(-3, 3)
+                items.append(gen.rnd_list(R.join_group(lt, t, q, sc).tolist(), dtype)); regs.append({"q": reg})
+            case.update(ltype=lt, items=items, regs=regs)
+            return case
         return s()
 
     def oracle(self, case, rec):
-        dtype = case["dtype"]
+        dtype, kind, lshape = case["dtype"], case["kind"], tuple(case["lshape"])
         eps = tu.EPS[dtype]
-        if case["kind"] == "angles":
-            r, p, y = case["rpy"]
-            with rec.sut("euler2SO3"):
-                X = pp.euler2SO3(tu.tens(case["rpy"], dtype))
-            rec.check(isinstance(X, pp.LieTensor) and X.ltype == pp.SO3_type and tuple(X.shape) == (4,), "euler2SO3:type", "bad type/shape")
-            want = _Rz(y) @ _Ry(p) @ _Rx(r)
-            got = R.qrot(tu.npy(X))
-            err = float(np.abs(got - want).max())
-            rec.notes["e2s"] = max(rec.notes.get("e2s", 0), err / (32 * eps))
-            rec.check(err <= 32 * eps, "euler2SO3:value:" + dtype, lambda: "euler2SO3(%s) differs from Rz Ry Rx by %.3g" % (case["rpy"], err))
-            qn = abs(float(np.linalg.norm(tu.npy(X))) - 1)
-            rec.check(qn <= 8 * eps, "euler2SO3:quatnorm", "quaternion norm off by %.3g" % qn)
-            if abs(abs(p) - math.pi / 2) < 0.05:
-                rec.nt(("e2s", dtype, "near_gimbal", round(p, 3)))
-            q = tu.npy(X).tolist()
-            q = gen.rnd_list(q, dtype)
+        rec.label(kind, dtype, "batch" if lshape else "single", "eps:" + ("default" if case["eps"] is None else "%g" % case["eps"]))
+        if kind == "angles":
+            E = tu.tens(case["items"], dtype).reshape(lshape + (3,))
+            if case.get("layout") == "transposed" and len(lshape) == 2:
+                E = E.transpose(0, 1).contiguous().transpose(0, 1)        # same values and shape, axes swapped in memory
+            rec.label("angles:contig" if E.is_contiguous() else "angles:noncontig")
+            try:
+                with rec.sut("euler2SO3"):
+                    X = pp.euler2SO3(E)
+            except Exception:
+                if "euler2SO3_noncontiguous" in KNOWN_OPEN and not E.is_contiguous() and rec.fails \
+                        and rec.fails[-1][0].startswith("raises:RuntimeError@convert.py:euler2SO3"):
+                    rec.fails.pop()
+                    rec.label("open:euler2SO3_noncontiguous")
+                    with rec.sut("euler2SO3"):
+                        X = pp.euler2SO3(E.contiguous())
+                else:
+                    raise
+            if not rec.check(isinstance(X, pp.LieTensor) and X.ltype == pp.SO3_type and tuple(X.shape) == lshape + (4,),
+                             "euler2SO3:type", "bad type/shape %s for angles of shape %s" % (tuple(X.shape), tuple(E.shape))):
+                return
+            Xn = tu.npy(X).reshape(-1, 4)
+            for i, ((r, p, y), cls) in enumerate(zip(case["items"], case["regs"])):
+                rec.label("angles:" + cls)
+                if not rec.check(bool(np.all(np.isfinite(Xn[i]))), "euler2SO3:nonfinite", "euler2SO3(%s) = %s" % ([r, p, y], Xn[i].tolist())):
+                    return
+                want = _Rz(y) @ _Ry(p) @ _Rx(r)
+                err = float(np.abs(R.qrot(Xn[i]) - want).max())
+                rec.notes["e2s"] = max(rec.notes.get("e2s", 0), err / (32 * eps))
+                rec.check(err <= 32 * eps, "euler2SO3:value:" + dtype, lambda: "euler2SO3(%s) differs from Rz Ry Rx by %.3g" % ([r, p, y], err))
+                qn = abs(float(np.linalg.norm(Xn[i])) - 1)
+                rec.check(qn <= 8 * eps, "euler2SO3:quatnorm", "quaternion norm off by %.3g" % qn)
+                if abs(abs(math.remainder(p, math.pi)) - math.pi / 2) < 0.05:
+                    rec.nt(("e2s", dtype, "near_gimbal", round(math.remainder(p, TWO_PI), 2)))
+                if max(abs(r), abs(y)) > math.pi or abs(p) > math.pi / 2:
+                    rec.nt(("e2s", dtype, "outside_principal", int(r // math.pi), int(p // (math.pi / 2)), int(y // math.pi)))
+            lt, quats = "SO3", gen_rnd_rows(Xn, dtype)
+            regs = case["regs"]
         else:
-            q = case["q"]
-        X = tu.lie("SO3", q, dtype)
+            lt = case["ltype"]
+            X = tu.lie(lt, case["items"], dtype, shape=lshape)
+            quats = [R.split_group(lt, it)[1].tolist() for it in case["items"]]
+            regs = [reg["q"] for reg in case["regs"]]
+        rec.label("euler:" + lt)
+        kw = {} if case["eps"] is None else {"eps": case["eps"]}
         with rec.sut("euler"):
-            e = X.euler()
-            e2 = pp.euler(X)
+            e = X.euler(**kw)
+            e2 = pp.euler(X, **kw)
             Y = pp.euler2SO3(e)
-        en = tu.npy(e)
-        rec.check(tuple(e.shape) == (3,) and torch.equal(e, e2), "euler:shape", "euler() shape %s / pp.euler differs" % (tuple(e.shape),))
-        if not rec.check(bool(np.all(np.isfinite(en))), "euler:nonfinite", "euler(%s) = %s" % (q, en.tolist())):
+        if not rec.check(torch.is_tensor(e) and not isinstance(e, pp.LieTensor) and tuple(e.shape) == lshape + (3,) and torch.equal(e, e2),
+                         "euler:shape", "euler() shape %s for lshape %s / pp.euler differs from the method" % (tuple(e.shape), lshape)):
             return
+        en = tu.npy(e).reshape(-1, 3)
+        Yn = tu.npy(Y).reshape(-1, 4)
+        epsa = 2e-4 if case["eps"] is None else case["eps"]
         tolr = 4 * eps * math.pi
-        qd = np.array(q, dtype=np.float64)
-        x, y_, z, w = qd / np.linalg.norm(qd)
-        sinp = 2 * (w * y_ - z * x)
-        rec.label("gimbal" if abs(sinp) >= 1 - 2e-4 else "regular")
-        if abs(sinp) < 1 - 2.2e-4:
-            # the statement ties the principal ranges to the non-degenerate case (in the gimbal band the
-            # code returns roll = 0 and a combined yaw in [-2pi, 2pi], which the docstring does not exclude)
-            rec.check(abs(en[0]) <= math.pi + tolr and abs(en[1]) <= math.pi / 2 + tolr and abs(en[2]) <= math.pi + tolr,
-                      "euler:range", "angles %s outside principal ranges" % en.tolist())
+        for i, q in enumerate(quats):
+            if not rec.check(bool(np.all(np.isfinite(en[i]))), "euler:nonfinite", "euler(%s) = %s" % (q, en[i].tolist())):
+                continue
+            qd = np.array(q, dtype=np.float64)
+            x, y_, z, w = qd / np.linalg.norm(qd)
+            sinp = 2 * (w * y_ - z * x)
+            inband = abs(sinp) >= 1 - epsa
+            # the statement ties the round trip and the principal ranges to |sin pitch| < 1 - eps; pypose evaluates sin pitch in
+            # the working precision, so within max(0.1 eps, 16 eps_dtype) of the threshold either side may be taken: nothing is
+            # asserted there (for the default eps this is the former 1 - 2.2e-4)
+            if abs(sinp) >= 1 - max(1.1 * epsa, epsa + 16 * eps):
+                rec.label("gimbal" if inband else "threshold_margin")
+                if inband and (abs(en[i][0]) > math.pi + tolr or abs(en[i][2]) > math.pi + tolr):
+                    rec.label("gimbal:angle_outside_principal")      # (roll = 0, yaw = -+2 atan2(x, w) in [-2pi, 2pi]; not excluded by the text)
+                continue
+            rec.label("regular")
+            rec.check(abs(en[i][0]) <= math.pi + tolr and abs(en[i][1]) <= math.pi / 2 + tolr and abs(en[i][2]) <= math.pi + tolr,
+                      "euler:range", "angles %s outside principal ranges (q=%s)" % (en[i].tolist(), q))
             cosp = math.sqrt(max(1 - sinp * sinp, 0.0))
-            tol = 64 * eps / max(cosp, 0.02)
-            err = float(np.abs(R.qrot(tu.npy(Y)) - R.qrot(qd)).max())
+            # pitch = asin(t2), roll / yaw = atan2 of two numbers of size cos pitch: absolute errors of a few eps become
+            # angle errors of a few eps / cos pitch; cos pitch >= sqrt(2 eps_arg) outside the band (0.02 for the default)
+            tol = 64 * eps / max(cosp, math.sqrt(2 * epsa))
+            err = float(np.abs(R.qrot(Yn[i]) - R.qrot(qd)).max())
             rec.notes["rt"] = max(rec.notes.get("rt", 0), err / tol)
-            rec.check(err <= tol, "euler:roundtrip:" + dtype, lambda: "euler2SO3(X.euler()) differs from X by %.3g (tol %.3g) q=%s euler=%s" % (err, tol, q, en.tolist()))
-            if case["kind"] == "quat" and (abs(sinp) > 0.99 or "pi" in case["reg"] or "neg" in case["reg"]):
-                rec.nt(("rt", dtype, case["reg"], round(sinp, 2)))
-            elif case["kind"] == "angles":
-                rec.nt(("rt", dtype, "angles", int(10 * case["rpy"][1])))
+            rec.check(err <= tol, "euler:roundtrip:" + dtype, lambda: "euler2SO3(X.euler(%s)) differs from X by %.3g (tol %.3g) q=%s euler=%s"
+                      % (case["eps"], err, tol, q, en[i].tolist()))
+            if kind == "group" and (abs(sinp) > 0.99 or "pi" in regs[i] or "neg" in regs[i] or "band" in regs[i]):
+                rec.nt(("rt", lt, dtype, regs[i], round(sinp, 2), case["eps"]))
+            elif kind == "angles":
+                rec.nt(("rt", dtype, regs[i], int(10 * math.asin(max(-1.0, min(1.0, sinp)))), case["eps"]))
+
+    def simplify(self, case):
+        if len(case["items"]) > 1:
+            for i in range(len(case["items"])):
+                yield dict(case, lshape=[], items=[case["items"][i]], regs=[case["regs"][i]])
+        if case["eps"] is not None:
+            yield dict(case, eps=None)
+
+
+def gen_rnd_rows(A, dtype):
+    return [gen.rnd_list(row.tolist(), dtype) for row in A]
+
+
+REJECT_KINDS = ("shear_big", "shear_small", "reflect", "rank", "shear_big_batch", "scale_big", "scale_big", "scale_small",
+                "nonfinite", "bottom_row")
+
+
+def _valid_elements(lt, dtype, n, seed):
+    """n valid group elements expanded from one integer (the valid neighbours of the judged matrix in a batch)"""
+    rs = np.random.RandomState(seed)
+    out = []
+    for _ in range(n):
+        q = rs.randn(4)
+        out.append(gen.rnd_list(R.join_group(lt, rs.uniform(-10, 10, 3), q / np.linalg.norm(q), 10.0 ** rs.uniform(-2, 2)).tolist(), dtype))
+    return out
 
 
 class Reject(Sub):
@@ -209,7 +370,7 @@ class Reject(Sub):
     n = {"quick": 6000, "thorough": 120000}
 
     def valid(self, case):
-        return gen.valid_group(case["ltype"], case["X"], case["dtype"])
+        return gen.valid_group(case["ltype"], case["X"], case["dtype"]) and gen.valid_groups(case["ltype"], case.get("others", []), case["dtype"])
 
     def strategy(self, tier):
         @st.composite
@@ -217,10 +378,19 @@ class Reject(Sub):
             lt = draw(st.sampled_from(R.GROUPS))
             dtype = draw(st.sampled_from(gen.DTYPES))
             X, reg = draw(gen.group(lt, dtype, tcap=10.0, slo=math.log(1e-2), shi=math.log(1e2)))
-            kind = draw(st.sampled_from(("shear_big", "shear_small", "reflect", "rank", "shear_big_batch")))
+            kind = draw(st.sampled_from(REJECT_KINDS))
+            # the judged matrix sits at position `pos` of a batch of nb matrices (nb = 1: unbatched), the others are valid
+            nb = draw(st.sampled_from((1, 1, 1, 2, 3, 4)))
+            if kind == "shear_big_batch":
+                nb = max(nb, 2)
             return {"ltype": lt, "dtype": dtype, "X": X, "reg": reg, "kind": kind,
-                    "layout": draw(st.sampled_from(("3x3", "3x4", "4x4"))),
+                    "layout": "4x4" if kind == "bottom_row" else draw(st.sampled_from(("3x3", "3x4", "4x4"))),
                     "axes": draw(st.permutations((0, 1, 2))), "mag": draw(st.floats(1.0, 8.0)),
+                    "sgn": draw(st.sampled_from((1.0, -1.0))),
+                    "coarse": draw(st.sampled_from((None, None, 0.5, 2.0, 1e-2, 1e2))),
+                    "bad": draw(st.sampled_from(("nan", "nan", "inf", "-inf"))),
+                    "others": _valid_elements(lt, dtype, nb - 1, draw(st.integers(0, 2 ** 31 - 1))) if nb > 1 else [],
+                    "pos": draw(st.integers(0, nb - 1)),
                     "via": draw(st.sampled_from(("mat2", "from_matrix")))}
         return s()
 
@@ -231,6 +401,9 @@ class Reject(Sub):
         i, j, _ = case["axes"]
         S = np.zeros((3, 3)); S[i, i] = 1.0; S[j, j] = -1.0        # traceless symmetric: det unchanged to first order
         tol_stated = 2e-5                                            # atol + rtol*1 on the diagonal of R R^T
+        scaled_ok = lt in ("RxSO3", "Sim3")                          # an isotropic scale is part of these groups
+        s_want = s
+        bottom = [0.0, 0.0, 0.0, 1.0]
         if kind.startswith("shear_big"):
             delta = 10 * tol_stated * case["mag"]                    # defect of R R^T ~ 2*delta >= 20x tolerance
             B = Rm @ (np.eye(3) + delta * S)
@@ -239,23 +412,72 @@ class Reject(Sub):
             if dtype == "float32":
                 delta = 0.0                                           # float32 rounding alone is ~1e-7; keep the valid matrix
             B = Rm @ (np.eye(3) + delta * S)
+        elif kind == "scale_big":
+            # c R with c != 1: R R^T - I = (c^2 - 1) I, |c^2 - 1| >= 2*delta*(1 - delta/2) >= 19x tolerance, det - 1 ~ 3 delta;
+            # or a coarse factor (0.5, 2, 0.01, 100).  Not a rotation - but a valid element of RxSO3 / Sim3 with scale c s
+            c = case.get("coarse") or 1.0 + case.get("sgn", 1.0) * 10 * tol_stated * case["mag"]
+            if scaled_ok and not (1e-3 <= c * s <= 1e3):
+                c = 1.0 / c                                           # stay inside the stated scale range [1e-3, 1e3]
+            B = c * Rm
+            s_want = c * s
+        elif kind == "scale_small":
+            # |c^2 - 1| ~ 2 delta = 1e-6 / mag <= 0.05 x (atol + rtol) and |c^3 - 1| ~ 1.5e-6 / mag <= 0.075 x; float32 rounding
+            # of the entries adds <= 3 eps32 = 3.6e-7 to either: together below 0.1 x the stated tolerance
+            c = 1.0 + case.get("sgn", 1.0) * 0.05 * 1e-5 / case["mag"]
+            B = c * Rm
+            s_want = c * s
         elif kind == "reflect":
             D = np.eye(3); D[i, i] = -1.0
             B = Rm @ D
-        else:
+        elif kind == "rank":
             D = np.eye(3); D[i, i] = 0.0
             B = Rm @ D
+        else:                       # nonfinite, bottom_row: the rotation block itself is valid
+            B = Rm
         M = np.eye(4); M[:3, :3] = s * B; M[:3, 3] = t
-        Mt = _layout(torch.tensor(M, dtype=tu.TD[dtype]), case["layout"])
-        if kind == "shear_big_batch":      # one bad item inside a batch of valid ones
+        if kind == "nonfinite":
+            M[i, j] = {"nan": math.nan, "inf": math.inf, "-inf": -math.inf}[case.get("bad", "nan")]
+        if kind == "bottom_row":
+            bottom[j if case["mag"] < 4.5 else 3] += case.get("sgn", 1.0) * case["mag"]      # off by >= 1 in one entry
+            M[3, :] = bottom
+        mats = [R.mat4(lt, o) for o in case.get("others", [])]
+        if kind == "shear_big_batch" and not mats:      # one bad item inside a batch of valid ones (cases saved before `others`)
             good = np.eye(4); good[:3, :3] = s * Rm; good[:3, 3] = t
-            Mt = torch.stack([_layout(torch.tensor(good, dtype=tu.TD[dtype]), case["layout"]), Mt], 0)
-        rec.label(lt, dtype, kind)
-        rec.nt(("reject", lt, dtype, kind, case["layout"], case["via"]))
+            mats, pos = [good], 1
+        else:
+            pos = case.get("pos", 0)
+        mats.insert(pos, M)
+        Mt = torch.stack([_layout(torch.tensor(m, dtype=tu.TD[dtype]), case["layout"]) for m in mats], 0)
+        if len(mats) == 1:
+            Mt = Mt[0]
+        must_raise = kind in ("shear_big", "shear_big_batch", "reflect", "rank", "nonfinite") or (kind == "scale_big" and not scaled_ok)
+        rec.label(lt, dtype, kind, "batch:%d" % len(mats), "pos:%d" % pos if len(mats) > 1 else "unbatched",
+                  "expect:" + ("ValueError" if must_raise else "either" if kind == "bottom_row" else "accept"))
+        rec.nt(("reject", lt, dtype, kind, case["layout"], case["via"], len(mats), pos))
         conv = (lambda m: CONV[lt](m, check=True)) if case["via"] == "mat2" else (lambda m: pp.from_matrix(m, tu.LT[lt], check=True))
-        if kind == "shear_small":
-            with rec.sut("check=True on a valid matrix"):
-                conv(Mt)
+        if kind == "bottom_row":
+            # documented: the rotation block decides validity, the last row "is not used in the computation" and only triggers a
+            # warning (mat2SE3 / mat2Sim3).  The statement is silent, so a ValueError is accepted as well - but an element
+            # that depends on the bad row is a wrong answer.
+            with warnings.catch_warnings(record=True) as wl:
+                warnings.simplefilter("always")
+                try:
+                    Y = conv(Mt)
+                except ValueError:
+                    rec.label("bottom_row:raised")
+                    return
+                except Exception as e:
+                    rec.fail("reject:wrong_exception:" + kind, "%s input raised %s: %s" % (kind, type(e).__name__, e))
+                    return
+            rec.label("bottom_row:warned" if wl else "bottom_row:silent")
+            M[3, :] = [0.0, 0.0, 0.0, 1.0]
+            self._same(rec, lt, dtype, Y, len(mats), pos, M, s, kind, case["layout"])
+            return
+        if not must_raise:
+            with rec.sut("check=True on a valid %s matrix" % lt):
+                Y = conv(Mt)
+            if kind.startswith("scale") and scaled_ok:      # (for SO3 / SE3 the accepted matrix is only nearly a rotation)
+                self._same(rec, lt, dtype, Y, len(mats), pos, M, s_want, kind, case["layout"])
             return
         try:
             Y = conv(Mt)
@@ -264,7 +486,30 @@ class Reject(Sub):
         except Exception as e:   # any other loud failure is still not a silent acceptance, but the statement says ValueError
             rec.fail("reject:wrong_exception:" + kind, "%s input raised %s instead of ValueError: %s" % (kind, type(e).__name__, e))
             return
-        rec.fail("reject:accepted:%s:%s" % (kind, lt), "check=True accepted a %s matrix (%s, %s): returned %s" % (kind, lt, case["layout"], tu.npy(Y).tolist()))
+        rec.fail("reject:accepted:%s:%s" % (kind, lt), "check=True accepted a %s matrix (%s, %s, item %d of %d): returned %s"
+                 % (kind, lt, case["layout"], pos, len(mats), tu.npy(Y).tolist()))
+
+    @staticmethod
+    def _same(rec, lt, dtype, Y, nb, pos, M, s, kind, layout):
+        """the element returned for batch item `pos` has the matrix M (scale s): the round-trip tolerances of `roundtrip`, plus the
+        rounding of the float64 matrix entries to the dtype (eps/2 each: 1.5 eps on the scale, 4 eps s on the rotation block)"""
+        eps = tu.EPS[dtype]
+        y = tu.npy(Y).reshape(-1, R.GDIM[lt])
+        if not rec.check(y.shape[0] == nb and bool(np.all(np.isfinite(y[pos]))), "accept:nonfinite:" + kind, "converter gave %s" % y.tolist()):
+            return
+        got = R.mat4(lt, y[pos])
+        err = float(np.abs(got[:3, :3] - M[:3, :3]).max())
+        rec.notes["acc_rot"] = max(rec.notes.get("acc_rot", 0), err / (36 * eps * s))
+        rec.check(err <= 36 * eps * s, "accept:matrix:%s:%s" % (kind, lt), lambda: "accepted %s matrix: element differs from it by %.3g (tol %.3g)" % (kind, err, 36 * eps * s))
+        if lt in ("SE3", "Sim3"):
+            want_t = M[:3, 3] if layout != "3x3" else np.zeros(3)
+            et = float(np.abs(got[:3, 3] - want_t).max())
+            rec.check(et <= 4 * eps * max(1.0, float(np.abs(want_t).max())), "accept:translation:%s:%s" % (kind, lt),
+                      lambda: "accepted %s matrix: translation changed by %.3g" % (kind, et))
+        if lt in ("RxSO3", "Sim3"):
+            es = abs(R.split_group(lt, y[pos])[2] - s) / s
+            rec.notes["acc_scale"] = max(rec.notes.get("acc_scale", 0), es / (34 * eps))
+            rec.check(es <= 34 * eps, "accept:scale:%s:%s" % (kind, lt), lambda: "accepted %s matrix: scale off by %.3g relative" % (kind, es))
 
 
 SUBS = [RoundTrip(), Euler(), Reject()]
